@@ -115,8 +115,13 @@ class Spacer:
         return self.rng.choice([' ', ' ', '  ', '\t', '\n', ' \n '])
 
 
+QNAMES: list = []      # prefixed element names met in registered signatures: name number 1000 + position
+
+
 def nt_text(nt) -> str:
-    return '' if nt == '-' else ('*' if nt == '*' else f'n{nt}')
+    if nt == '-' or nt == '*':
+        return '' if nt == '-' else '*'
+    return QNAMES[nt - 1000] if nt >= 1000 else f'n{nt}'
 
 
 def render_leaf(leaf, sp) -> str:
@@ -138,6 +143,11 @@ def render_leaf(leaf, sp) -> str:
         return 'xs:anySimpleType'
     if k == 'K':
         return f'{KIND_TEXT[leaf[1]]}{sp()}({sp()}{nt_text(leaf[2])}{sp()})'
+    if k == 'KT':
+        ta = leaf[3]
+        tat = {'untyped': 'xs:untyped', 'anyType': 'xs:anyType', 'anySimple': 'xs:anySimpleType'}.get(ta) if isinstance(ta, str) \
+            else L.atom_names[ta[1]]
+        return f'{KIND_TEXT[leaf[1]]}{sp()}({sp()}{nt_text(leaf[2])}{sp()},{sp() if sp.rng else " "}{tat}{"?" if leaf[4] else ""}{sp()})'
     if k == 'D':
         return f'document-node{sp()}({sp()}element{sp()}({sp()}{nt_text(leaf[1])}{sp()}){sp()})'
     if k == 'fany':
@@ -178,6 +188,9 @@ def tok_leaf(leaf) -> str:
         return f'{k} {leaf[1]}'
     if k == 'K':
         return f'K {leaf[1]} {leaf[2]}'
+    if k == 'KT':
+        ta = leaf[3] if isinstance(leaf[3], str) else f't {leaf[3][1]}'
+        return f'KT {leaf[1]} {leaf[2]} {ta} {1 if leaf[4] else 0}'
     if k == 'D':
         return f'D {leaf[1]}'
     raise ValueError(leaf)
@@ -199,7 +212,22 @@ def tok(ty) -> str:
 
 
 def simple(ty) -> bool:
-    return ty[0] in ('E', 'L') or (ty[0] == 'A' and simple(ty[1]))
+    if ty[0] == 'L':
+        return ty[1][0] != 'KT'
+    return ty[0] == 'E' or (ty[0] == 'A' and simple(ty[1]))
+
+
+def has_type_arg(ty) -> bool:
+    k = ty[0]
+    if k == 'L':
+        return ty[1][0] == 'KT'
+    if k == 'F':
+        return any(has_type_arg(a) for a in ty[1]) or has_type_arg(ty[2])
+    if k == 'M':
+        return has_type_arg(ty[2])
+    if k == 'A':
+        return has_type_arg(ty[1])
+    return False
 
 
 def flat(ty) -> bool:
@@ -254,7 +282,12 @@ def _p_occ(s):
 def _p_nt(s, close=')'):
     m = re.match(r'(\*|n(\d+))?\)', s)
     if not m:
-        raise Unsupported(s)
+        m = re.match(r'([A-Za-z][\w.-]*:[A-Za-z][\w.-]*)\)', s)
+        if not m:
+            raise Unsupported(s)
+        if m.group(1) not in QNAMES:
+            QNAMES.append(m.group(1))
+        return 1000 + QNAMES.index(m.group(1)), s[m.end():]
     nt = '-' if m.group(1) is None else ('*' if m.group(1) == '*' else int(m.group(2)))
     return nt, s[m.end():]
 
@@ -355,6 +388,7 @@ class World:
         self.funcs = []                  # (python function item, token)
         self.func_src = []               # (source expression, signature ASTs) of the same items
         self.func_skipped = 0
+        self.ctx_items = [n for n, t in self.nodes if t.split(' ')[1] == 'e'][:3] + [self.root1]
 
     # ---- nodes
     @staticmethod
@@ -585,6 +619,12 @@ class TyGen:
             return ('K', kind, '-')
         if r < 0.85:
             return ('D', self.nt())
+        if r < 0.91:
+            names = self.L.atom_names
+            ta = self.rng.choice(['untyped', 'untyped', 'anyType', 'anySimple',
+                                  ('a', names.index('xs:untypedAtomic')), ('a', names.index('xs:anyAtomicType')),
+                                  ('a', names.index('xs:string')), ('a', self.atom())])
+            return ('KT', self.rng.choice('ea'), self.rng.choice(['*', 1, 2, 3]), ta, self.rng.random() < 0.2)
         return self.rng.choice([('fany',), ('many',), ('aany',)])
 
     def simple_ty(self, depth=0):
@@ -627,6 +667,8 @@ class TyGen:
                 ups = rows[a]
                 downs = [i for i, row in enumerate(rows) if a in row]
                 leaf = ('a', self.rng.choice(ups + downs))
+            elif leaf[0] == 'l' and self.rng.random() < 0.7:
+                leaf = self.rng.choice([('l', self.rng.randrange(len(self.L.list_names))), ('anyType',), ('anySimple',)])
             elif self.rng.random() < 0.15:
                 leaf = self.rng.choice([('item',), ('node',), ('fany',), self.leaf()])
             return ('L', leaf, o)
@@ -652,11 +694,11 @@ def err_text(e) -> str:
     return 'E:OTHER:' + type(e).__name__
 
 
-def impl_match(W: World, pyval, st_text, xsd11) -> str:
+def impl_match(W: World, pyval, st_text, xsd11, no_parser=False) -> str:
     from elementpath.sequence_types import match_sequence_type
     v = pyval[0] if len(pyval) == 1 else pyval
     try:
-        return 'T' if match_sequence_type(v, st_text, W.parsers[xsd11]) else 'F'
+        return 'T' if match_sequence_type(v, st_text, None if no_parser else W.parsers[xsd11]) else 'F'
     except Exception as e:
         return err_text(e)
 
@@ -690,6 +732,17 @@ def _eq(a, b) -> bool:
         return bool(a == b) or (a != a and b != b)
     except Exception:
         return False
+
+
+def impl_as_argument(W: World, item, st_text, xsd11) -> str:
+    """the item passed to an inline function whose parameter is declared with the type: T accepted, F = XPTY0004"""
+    try:
+        tk = W.parsers[xsd11].parse(f'function($g as {st_text}) as xs:boolean {{ true() }}($v)')
+        r = tk.evaluate(W.XPathContext(W.root1, variables={'v': item}))
+        return 'T' if r is True or r == [True] else f'?{r!r}'
+    except Exception as e:
+        t = err_text(e)
+        return 'F' if t == 'E:XPTY0004' else t
 
 
 def impl_restr(t1: str, t2: str) -> str:
@@ -731,9 +784,19 @@ def judge_cases(run: Run, W: World, cases, label='judgement'):
         tags = []
         if a['fi'] == '1':
             tags.append('F18i')
+        if a['fk'] == '1':
+            tags.append('F18k')
+            st.count('type-argument-kind-test')
         if im != a['match'] or (spec is not None and im != spec):
             run.disagree(Disagreement(dict(case, op='match_sequence_type'), im, a['match'], spec,
                                       what='match_sequence_type', site='sequence_types.match_sequence_type', tags=tags))
+        if x == 1 and len(vt) % 3 == 0:
+            # the optional `parser` argument left out: no XSD-version restriction, names compared as written
+            inp = impl_match(W, pv, text, x, no_parser=True)
+            st.count('match:parser=None')
+            if inp != a['match']:
+                run.disagree(Disagreement(dict(case, op='match_sequence_type(parser=None)'), inp, a['match'], spec,
+                                          what='match_sequence_type', site='sequence_types.match_sequence_type', tags=tags))
         # 2. instance of / 3. treat as (through the 3.1 parser)
         ii = impl_instance(W, pv, text, x)
         it = impl_treat(W, pv, text, x)
@@ -757,6 +820,72 @@ def judge_cases(run: Run, W: World, cases, label='judgement'):
                                           site='_xpath2_operators.' + site, tags=itags))
         if a['dom'] == '1':
             st.count('in-domain-of-match_eq_spec')
+
+
+def matrix_cases(run: Run, W: World):
+    """EXHAUSTIVE over the generated issubclass matrix: every value class that has a sample x every builtin atomic
+    type (+ xs:numeric) as single value and as a pair, and the empty sequence x every type, against the occurrence
+    indicators (quick: one indicator per (class, type) pair, rotating; thorough: all four)"""
+    L = live()
+    first = {}
+    for v, t in W.atoms:
+        first.setdefault(t, v)
+    atoms = [(v, t) for t, v in first.items()]
+    leaves = [('a', i) for i in range(len(L.atom_names))] + [('num',)]
+    occs = '1?*+'
+    cases = []
+    only11 = set(L.xsd11_only)
+    for ci, (v, vt) in enumerate(atoms):
+        for ti, leaf in enumerate(leaves):
+            # a plain xs:dateTimeStamp / xs:error name is judged by both parsers (no instances under XSD 1.0)
+            x = ci % 2 if (leaf[0] == 'a' and leaf[1] in only11) else (1 if (ci + ti) % 5 == 0 else 0)
+            for o in (occs if not run.quick else occs[(ci + ti) % 4]):
+                cases.append((('L', leaf, o), ([v], '1 ' + vt), x))
+            if not run.quick or (ci + ti) % 3 == 0:
+                for o in (occs if not run.quick else occs[(ci + 2 * ti) % 4]):
+                    cases.append((('L', leaf, o), ([v, v], f'2 {vt} {vt}'), x))
+    for ti, leaf in enumerate(leaves):
+        for o in occs:
+            cases.append((('L', leaf, o), ([], '0'), ti % 2))
+    run.stats.count('matrix:exhaustive-class-x-type-pairs', len(atoms) * len(leaves))
+    for i in range(0, len(cases), 4000):
+        judge_cases(run, W, cases[i:i + 4000])
+
+
+def text_cases(run: Run, types):
+    """the Lean text of a type against the real normalised string, and the Lean model of the string-level
+    splitting (`pySplit`) against the real `st[9:].partition(') as ')` / `.split(', ')` and helpers.split_function_test"""
+    from elementpath.sequence_types import normalize_sequence_type
+    from elementpath.helpers import split_function_test
+    st = run.stats
+    lines = ['T|' + tok(t) for t in types]
+    answers = run.driver('C18', lines)
+    for ty, ans in zip(types, answers):
+        if not ans.startswith('text='):
+            run.disagree(Disagreement(tok(ty), 'driver:' + ans, what='protocol'))
+            continue
+        body = ans[5:]
+        text, _, split = body.partition(' split=')
+        real = normalize_sequence_type(render(ty, Spacer(run.rng, 0.4)))
+        st.case({'text': real}, nontrivial=True)
+        st.count('text:' + ('flat' if flat(ty) else 'non-flat'))
+        if text != real or text != render(ty):
+            run.disagree(Disagreement({'type': render(ty), 'op': 'normalised text'}, real, text, None, what='text',
+                                      site='sequence_types.normalize_sequence_type'))
+            continue
+        if ty[0] == 'F':
+            parts = real[9:].partition(') as ')
+            impl = parts[0].split(', ') + ['=>', parts[2]]
+            model = split.split('\u241f')
+            st.count('text:split-compared')
+            if impl != model:
+                run.disagree(Disagreement({'type': real, 'op': "st[9:].partition(') as ') / split(', ')"}, impl, model, None,
+                                          what='string-split', site='sequence_types.is_sequence_type_restriction l.116-119'))
+            helper = split_function_test(real)
+            expect = (parts[0].split(', ') if parts[0] else []) + [parts[2]]
+            if helper != expect:
+                run.disagree(Disagreement({'type': real, 'op': 'helpers.split_function_test'}, helper, expect, None,
+                                          what='string-split', site='helpers.split_function_test'))
 
 
 def restr_cases(run: Run, pairs, what='restriction'):
@@ -871,7 +1000,8 @@ def hist_variant(G: TyGen, ty, rng):
 def gen_history(W: World, G: TyGen, rng, bases):
     """ops on a pool of function items: ('j', kind, i, ty) / ('p', i, mask); item 0 is the base item"""
     src, asts = rng.choice(bases)
-    impl = [(list(asts[:-1]), asts[-1])]        # signature as the code computes it: first `arity` parameters
+    impl = [(list(asts[:-1]), asts[-1])]        # signature of every pool item: parameters at the placeholders
+    first_k = []                                # the (wrong) first-k reading, as a near-miss type to judge against
     spec = [(list(asts[:-1]), asts[-1])]        # signature per XPath: parameters at the placeholders
     parent = [None]
     ops = []
@@ -890,7 +1020,8 @@ def gen_history(W: World, G: TyGen, rng, bases):
                     mask[rng.randrange(n)] = True
             ops.append(('p', i, mask))
             k = sum(mask)
-            impl.append((impl[i][0][:k], impl[i][1]))
+            impl.append(([impl[i][0][j] for j, m in enumerate(mask) if m], impl[i][1]))
+            first_k.append((impl[i][0][:k], impl[i][1]))
             sa = spec[i][0]
             spec.append(([sa[j] for j, m in enumerate(mask) if m and j < len(sa)], spec[i][1]))
             parent.append((i, mask))
@@ -900,19 +1031,19 @@ def gen_history(W: World, G: TyGen, rng, bases):
             if r < 0.30:
                 a, ret = impl[i]
             elif r < 0.50:
-                a, ret = spec[i]
+                a, ret = rng.choice(first_k) if first_k else spec[i]
             elif r < 0.62:
                 a, ret = impl[0]
             elif r < 0.70:
                 ty = ('L', ('fany',), '1')
                 a = None
             else:
-                a, ret = rng.choice(impl + spec)
+                a, ret = rng.choice(impl + spec + first_k)
                 a = [hist_variant(G, x, rng) for x in a]
                 ret = hist_variant(G, ret, rng)
             if a is not None:
                 ty = ('F', list(a), ret)
-            ops.append(('j', rng.choice(['jm', 'ji', 'jt']), i, ty))
+            ops.append(('j', rng.choice(['jm', 'ji', 'jt', 'ja']), i, ty))
     return src, asts, ops, parent
 
 
@@ -939,6 +1070,8 @@ def run_history_impl(W: World, src, ops, xsd11=0):
             return impl_match(W, [item], text, xsd11)
         if kind == 'ji':
             return impl_instance(W, [item], text, xsd11)
+        if kind == 'ja':
+            return impl_as_argument(W, item, text, xsd11)
         return impl_treat(W, [item], text, xsd11)
     out, fresh = [], []
     try:
@@ -986,7 +1119,7 @@ def single_expression(src, ops, parent_of):
     for op in ops:
         if op[0] == 'p':
             exprs.append('(' + exprs[op[1]] + ')(' + ', '.join('?' if m else '1' for m in op[2]) + ')')
-    js = [(k, op) for k, op in enumerate(ops) if op[0] == 'j']
+    js = [(k, op) for k, op in enumerate(ops) if op[0] == 'j' and op[1] != 'ja']
     body = ', '.join(f'(({exprs[op[2]]}) instance of {render(op[3])})' for _, op in js)
     return f'let $f := {src} return ({body})', [k for k, _ in js]
 
@@ -1037,7 +1170,7 @@ def histories(run: Run, W: World, G: TyGen):
             model, spec, q, r = e.split('/')
             st.count('history:judgement' + (':after-partial' if seen_partial else '') + (':derived-item' if op[2] else ''))
             case = {'source': src, 'history': [describe_op(o) for o in ops[:k + 1]], 'op': describe_op(op)}
-            tags = (['F18q'] if q == '1' else []) + (['F18r'] if r == '1' else [])
+            tags = []
             if r == '1':
                 # aliasing of the argument list of an inline function (finding F18r): the model of the typing
                 # is not claimed for this item; a wrong answer is the finding
@@ -1046,7 +1179,9 @@ def histories(run: Run, W: World, G: TyGen):
                     run.disagree(Disagreement(case, got[k], None, spec, what='history-judgement',
                                               site='_xpath30_operators: func = copy(func); func[:] = tokens', tags=tags))
                 continue
-            if got[k] != model or got[k] != spec:
+            if spec == '-':
+                spec = None
+            if got[k] != model or (spec is not None and got[k] != spec):
                 run.disagree(Disagreement(case, got[k], model, spec, what='history-judgement',
                                           site='XPathFunction.match_function_test', tags=tags))
             if got[k] != fresh[k]:
@@ -1065,7 +1200,7 @@ def histories(run: Run, W: World, G: TyGen):
             st.count('history:single-expression')
             for r, k in zip(res, idx):
                 model, spec, q, fr = entries[k].split('/')
-                tags = (['F18q'] if q == '1' else []) + (['F18r'] if fr == '1' else [])
+                tags = []
                 if fr == '1':
                     if r != spec:
                         run.disagree(Disagreement({'expression': expr, 'judgement': describe_op(ops[k])}, r, None, spec,
@@ -1080,57 +1215,69 @@ def histories(run: Run, W: World, G: TyGen):
 def describe_op(op) -> str:
     if op[0] == 'p':
         return f'item{op[1]}(' + ', '.join('?' if m else '1' for m in op[2]) + ') -> new item'
-    kind = {'jm': 'match_sequence_type', 'ji': 'instance of', 'jt': 'treat as'}[op[1]]
+    kind = {'jm': 'match_sequence_type', 'ji': 'instance of', 'jt': 'treat as', 'ja': 'passed to a parameter of type'}[op[1]]
     return f'item{op[2]} {kind} {render(op[3])}'
 
 
 # =============================================================================== signatures (exploration)
 def signatures(run: Run, W: World):
-    """every registered signature: parse it into the AST (is it inside the model's language?), and where
-    arguments can be generated from the declared types, call the function and check the result with the
-    REAL match_sequence_type against the declared return type.  Exploration, not proof."""
+    """every registered signature: parse it into the AST, generate arguments from the declared parameter types
+    (atomic values of a matching class, nodes, function items built from the declared function type, maps,
+    arrays, sequences by the occurrence indicator) with a context document and a context item, call the function
+    through the parser and check the result with the REAL match_sequence_type against the declared return type
+    (and with the model where the result is representable).  Exploration, not proof: the statement
+    "every successful call returns a value of the declared type" is checked on the calls made."""
     from elementpath.sequence_types import match_sequence_type
     P = W.P
     st = run.stats
     total = parsed = called = ok = 0
-    unmatched = []
-    skip = {'fn:doc', 'fn:doc-available', 'fn:collection', 'fn:uri-collection', 'fn:unparsed-text',
-            'fn:unparsed-text-lines', 'fn:unparsed-text-available', 'fn:environment-variable',
-            'fn:available-environment-variables', 'fn:json-doc', 'fn:load-xquery-module', 'fn:transform',
-            'fn:trace', 'fn:error', 'fn:random-number-generator', 'fn:put'}
+    unmatched, status = [], {}
+    skip = {'fn:doc': 'needs a resolvable URI', 'fn:doc-available': 'needs a resolvable URI', 'fn:collection': 'needs a collection',
+            'fn:uri-collection': 'needs a collection', 'fn:unparsed-text': 'reads a resource', 'fn:unparsed-text-lines': 'reads a resource',
+            'fn:unparsed-text-available': 'reads a resource', 'fn:environment-variable': 'reads the environment',
+            'fn:available-environment-variables': 'reads the environment', 'fn:json-doc': 'reads a resource',
+            'fn:load-xquery-module': 'not applicable to XPath', 'fn:transform': 'needs an XSLT processor',
+            'fn:trace': 'writes a trace', 'fn:error': 'always raises', 'fn:put': 'not applicable'}
     for (qname, arity), sig in sorted(P.function_signatures.items(), key=lambda kv: (kv[0][0].qname, kv[0][1])):
         total += 1
+        key = f'{qname.qname}#{arity}'
         try:
             ast = parse_st(sig.replace(', ...)', ')'))
-        except Unsupported:
-            st.count('signature:outside-AST')
-            continue
         except Exception:
-            st.count('signature:parse-error')
+            status[key] = 'signature outside the AST'
             continue
         parsed += 1
-        if qname.qname in skip or not flat(ast):
-            st.count('signature:not-called')
+        if qname.qname in skip:
+            status[key] = 'not called: ' + skip[qname.qname]
             continue
-        args = ast[1][:arity]
+        args = list(ast[1][:arity])
+        while len(args) < arity and ast[1]:          # variadic (concat): repeat the last declared parameter
+            args.append(ast[1][-1])
         if len(args) != arity:
-            st.count('signature:not-called')
+            status[key] = 'not called: arity does not fit the declared parameters'
             continue
-        done = False
-        for _attempt in range(4):
-            vals = [value_of_type(W, a) for a in args]
+        last_err = 'no argument generator for ' + ', '.join(render(a) for a in args)
+        for attempt in range(run.scale(10, 25)):
+            vals = [value_of_type(W, a, attempt, qname.qname, i) for i, a in enumerate(args)]
             if any(v is None for v in vals):
                 break
+            if key in COLLATION_LAST:
+                vals[-1] = ['http://www.w3.org/2005/xpath-functions/collation/codepoint']
+            if key in FLAGS_LAST:
+                vals[-1] = [['i', '', 's'][attempt % 3]]
+            if key == 'fn:apply#2':
+                vals = [[function_of_type(W, ('L', ('fany',), '1'))], [W.P.parse('[1]').evaluate(W.XPathContext(W.root1))]]
             variables = {f'a{i}': (v if len(v) != 1 else v[0]) for i, v in enumerate(vals)}
             expr = f'{qname.qname}(' + ', '.join(f'$a{i}' for i in range(arity)) + ')'
             try:
-                node = W.nodes[1][0]
+                node = W.ctx_items[attempt % len(W.ctx_items)]
                 ctx = W.XPathContext(W.root1, item=node, variables=variables)
                 res = P.parse(expr).evaluate(ctx)
-            except Exception:
+            except Exception as e:
+                last_err = 'every attempt raised, last: ' + err_text(e)
                 continue
-            done = True
             called += 1
+            status[key] = 'called'
             ret_text = render(ast[2])
             try:
                 good = match_sequence_type(res, ret_text, P)
@@ -1146,41 +1293,119 @@ def signatures(run: Run, W: World):
                 run.disagree(Disagreement({'call': expr, 'args': {k: repr(v)[:60] for k, v in variables.items()},
                                            'declared': sig, 'result': repr(res)[:80]}, f'result-matches={good}', None,
                                           'result-matches=True', what='signature-return-type',
-                                          site=f'{qname.qname}#{arity}', tags=['F18s'] if trig else []))
+                                          site=key, tags=['F18s'] if trig else []))
             break
-        if not done:
-            st.count('signature:no-successful-call')
+        else:
+            status[key] = 'not called: ' + last_err
+        if key not in status:
+            status[key] = 'not called: ' + last_err
+    for v in status.values():
+        st.count('signature:' + v.split(':')[0])
     st.extra['signatures'] = {'registered': total, 'inside_AST': parsed, 'called_successfully': called,
-                              'result_matches_declared_type': ok, 'unmatched': unmatched[:20]}
+                              'result_matches_declared_type': ok, 'unmatched': unmatched[:20],
+                              'unexercised': {k: v for k, v in sorted(status.items()) if v != 'called'}}
 
 
-def value_of_type(W: World, ty):
-    """a python value (list of items) matching a simple type, or None"""
+COLLATION_LAST = {'fn:contains#3', 'fn:contains-token#3', 'fn:distinct-values#2', 'fn:max#2', 'fn:min#2', 'fn:starts-with#3',
+                  'fn:ends-with#3', 'fn:substring-before#3', 'fn:substring-after#3', 'fn:compare#3', 'fn:index-of#3',
+                  'fn:deep-equal#3', 'fn:sort#2', 'fn:collation-key#2'}
+FLAGS_LAST = {'fn:replace#4', 'fn:matches#3', 'fn:tokenize#3', 'fn:analyze-string#3'}
+STRING_POOL = ['abc', 'a b', '', 'en', 'http://example.com/a?b=c', '2000-01-01', 'NFC', '[0-9]+', 'a', 'x', 'ab', '1',
+               'utf-8', 'n1', 'p:a', '{"a": 1}', '<n1/>', '[Y0001]-[M01]', '#0.0', 'upper-first']
+
+
+def value_of_type(W: World, ty, attempt=0, fname='', pos=0):
+    """a python value (list of items) matching a parameter type, or None"""
     rng = W.rng
     if ty[0] == 'E':
         return []
+    if ty[0] in ('M', 'A') or (ty[0] == 'L' and ty[1][0] in ('many', 'aany')):
+        o = ty[-1]
+        if o in '?*' and attempt % 4 == 3:
+            return []
+        src = 'map{"a": 1, "b": 2}' if ty[0] == 'M' or ty[1][0] == 'many' else '[1, 2, 3]'
+        return [W.P.parse(src).evaluate(W.XPathContext(W.root1))]
+    if ty[0] == 'F' or (ty[0] == 'L' and ty[1][0] == 'fany'):
+        f = function_of_type(W, ty, attempt)
+        return None if f is None else [f]
     if ty[0] != 'L':
         return None
     leaf, o = ty[1], ty[2]
-    n = {'1': 1, '?': rng.choice([0, 1]), '*': rng.choice([0, 1, 2]), '+': rng.choice([1, 2])}[o]
+    n = {'1': 1, '?': 0 if attempt % 5 == 4 else 1, '*': [1, 2, 0, 3][attempt % 4], '+': [1, 2][attempt % 2]}[o]
 
     def one():
         k = leaf[0]
         if k == 'item':
-            return rng.choice(W.atoms + W.nodes)[0]
+            return rng.choice(W.atoms + W.nodes)[0] if attempt % 2 else rng.choice(W.atoms)[0]
         if k == 'node':
             return rng.choice(W.nodes)[0]
         if k == 'a':
+            name = live().atom_names[leaf[1]]
+            if name in ('xs:string', 'xs:anyAtomicType') and attempt % 3 != 2:
+                return STRING_POOL[(attempt * 7 + pos * 3 + rng.randrange(3)) % len(STRING_POOL)]
+            if name == 'xs:integer':
+                return [1, 2, 0, 3, -1][attempt % 5]
+            if name == 'xs:double':
+                return [1.0, 2.5, 0.0][attempt % 3]
             cands = [v for v, t in W.atoms if leaf[1] in live().inst_rows()[int(t.split(' ')[1])]]
             return rng.choice(cands) if cands else None
         if k == 'num':
-            return rng.choice([5, 1.5, Decimal('2.5')])
+            return [5, 1.5, Decimal('2.5')][attempt % 3]
         if k == 'K':
             cands = [nd for nd, t in W.nodes if t.split(' ')[1] == leaf[1]]
             return rng.choice(cands) if cands else None
+        if k == 'D':
+            return W.root1
         return None
     out = [one() for _ in range(n)]
     return None if any(x is None for x in out) else out
+
+
+def expr_of_type(ty) -> str:
+    """an XPath expression whose value matches the (return) type of a function parameter"""
+    if ty[0] == 'E':
+        return '()'
+    if ty[0] == 'L':
+        leaf, o = ty[1], ty[2]
+        if o in '?*' and leaf[0] not in ('a', 'num', 'item'):
+            return '()'
+        k = leaf[0]
+        if k == 'a':
+            name = live().atom_names[leaf[1]]
+            return {'xs:boolean': 'true()', 'xs:string': '"a"', 'xs:integer': '1', 'xs:double': '1e0', 'xs:decimal': '1.0',
+                    'xs:anyAtomicType': '1'}.get(name, f'{name}("1")' if o == '1' or o == '+' else '()')
+        if k in ('item', 'num'):
+            return '1'
+        if k == 'node' or k == 'K':
+            return '.'
+        if k == 'many':
+            return 'map{}'
+        if k == 'aany':
+            return '[]'
+        if k == 'fany':
+            return 'true#0'
+    if ty[0] == 'M':
+        return 'map{}'
+    if ty[0] == 'A':
+        return '[]'
+    return '()'
+
+
+def function_of_type(W: World, ty, attempt=0):
+    """a function item for a parameter declared `function(A..) as R` (or function(*))"""
+    if ty[0] == 'L':
+        src = 'function($x) { $x }'
+    else:
+        params = ', '.join(f'$p{i} as {render(a)}' for i, a in enumerate(ty[1]))
+        body = expr_of_type(ty[2])
+        if attempt % 2 and ty[1] and ty[2][0] == 'L' and ty[2][1][0] == 'item':
+            body = '$p0'
+        src = f'function({params}) as {render(ty[2])} {{ {body} }}'
+    try:
+        f = W.P.parse(src).evaluate(W.XPathContext(W.root1))
+        return f[0] if isinstance(f, list) else f
+    except Exception:
+        return None
 
 
 # =============================================================================== corpus
@@ -1199,6 +1424,8 @@ def corpus_types():
             (('F', [a('xs:int')], item('+')), ('F', [a('xs:int')], ('E',))),
             (('L', ('node',), '1'), ('L', ('K', 'd', '-'), '1')), (('L', ('node',), '*'), ('L', ('K', 'e', 2), '1')),
             (('L', ('anyType',), '1'), ('L', ('l', 0), '1')), (a('xs:decimal'), a('xs:integer')),
+            (('L', ('l', 0), '1'), ('L', ('l', 1), '1')), (('L', ('l', 1), '*'), ('L', ('l', 1), '1')),
+            (('L', ('l', 2), '?'), ('L', ('l', 0), '?')), (('L', ('anySimple',), '*'), ('L', ('l', 2), '*')),
             (('L', ('fany',), '1'), ('F', [a('xs:int')], a('xs:int'))),
             (('F', [a('xs:int')], a('xs:int')), ('L', ('many',), '1')),
         ],
@@ -1240,7 +1467,7 @@ def correspond(run: Run):
         restr_cases(run, pairs[i:i + 5000])
     # --- judgements
     cases = []
-    for _ in range(run.scale(2600, 60000)):
+    for _ in range(run.scale(1800, 60000)):
         ty = G.ty(0, want_flat=True)
         v = W.gen_seq()
         # bias: half of the time take a type that has a chance to match the first item
@@ -1250,8 +1477,12 @@ def correspond(run: Run):
         if x == 0 and mentions(ty, set(live().xsd11_only)):
             x = 1          # an XSD 1.0 processor does not know xs:dateTimeStamp / xs:error: static error, not a judgement
         cases.append((ty, v, x))
+    cases = fixed_judgements(W) + cases
     for i in range(0, len(cases), 4000):
         judge_cases(run, W, cases[i:i + 4000])
+    matrix_cases(run, W)
+    text_cases(run, [G.ty(0, want_flat=rng.random() < 0.5) for _ in range(run.scale(1200, 12000))]
+               + [('F', f[2][:-1], f[2][-1]) for f in W.funcs])
     # --- laws of the real relation
     types = [G.ty(0, want_flat=rng.random() < 0.85) for _ in range(run.scale(60, 150))]
     types += [t for p in corpus_types()['restr'] for t in p]
@@ -1265,6 +1496,25 @@ def correspond(run: Run):
                       'function items with declared signatures, maps, arrays, xsd version) checked through '
                       'match_sequence_type, instance of, treat as; restriction = pair of types through '
                       'is_sequence_type_restriction; distinct = distinct (canonical type text, value tokens) or type pairs')
+
+
+def fixed_judgements(W: World):
+    """seed corpus of judgements: branches that random generation reaches rarely"""
+    L = live()
+    ix = L.atom_names.index
+    cls = L.val_cls.index
+    ctx = W.XPathContext(W.root1)
+    m_str = (W.P.parse('map{"a": 1}').evaluate(ctx), f'm 1 {cls(str)} 1 a {cls(int)}')
+    m_int = (W.P.parse('map{1: "x", 2: "y"}').evaluate(ctx), f'm 2 {cls(int)} 1 a {cls(str)} {cls(int)} 1 a {cls(str)}')
+    arr = (W.P.parse('[1, 2]').evaluate(ctx), f'r 2 1 a {cls(int)} 1 a {cls(int)}')
+    a = lambda n, o='1': ('L', ('a', ix(n)), o)  # noqa: E731
+    star = ('L', ('item',), '*')
+    out = []
+    for key in ('xs:anyURI', 'xs:string', 'xs:integer', 'xs:anyAtomicType'):      # strict=False matching of map keys (l.321)
+        for ret in (star, a('xs:integer', '?'), a('xs:integer')):
+            for item, t in (m_str, m_int, arr):
+                out.append((('F', [a(key)], ret), ([item], '1 ' + t), 0))
+    return out
 
 
 def type_for(W, G, v, rng):
@@ -1405,6 +1655,7 @@ def translate(run: Run) -> dict:
            '  xsd11Only := ' + lean_list(L.xsd11_only),
            f'  anyURI := {names.index("xs:anyURI")}',
            f'  intCls := {L.val_cls.index(int)}',
+           f'  untypedCls := {L.val_names.index("UntypedAtomic")}',
            '',
            '/-- the specification\'s view: an XSD 1.0 processor does not know the XSD 1.1-only types -/',
            'def specTables (xsd11 : Bool) : SpecTables where',
@@ -1416,6 +1667,8 @@ def translate(run: Run) -> dict:
            '/-- registered signatures of XPath31Parser that lie inside the AST -/',
            'def signatures : List (String × Ty) := [' + ',\n  '.join(f'("{n}", {lean_ty(t)})' for n, t in sigs) + ']',
            f'def signaturesOutsideAst : Nat := {outside}',
+           f'def signaturesRegistered : Nat := {len(XPath31Parser.function_signatures)}',
+           'def qnames : List String := [' + ', '.join(f'"{q}"' for q in QNAMES) + ']',
            'end EPV.Gen.C18']
     text = '\n'.join(out) + '\n'
     gen = LEAN / 'EPV' / 'Gen' / 'C18Tables.lean'
@@ -1436,7 +1689,7 @@ def body(run: Run) -> int:
                         'element / attribute / PI names without namespaces; no schema (type annotations xs:untyped / xs:untypedAtomic)',
                         'documents with exactly one element child',
                         'typed function tests whose argument types contain a typed function or map test are outside the model (string splitting), explored on the real code only']
-    run.prove(['EPV.Props.C18', 'EPV.Props.C18Tables'], ['EPV.Spec.XPathTypes', 'EPV.Gen.C18Tables', 'EPV.Lemmas.SeqTypeSpec', 'EPV.Lemmas.SeqTypeHist'])
+    run.prove(['EPV.Props.C18', 'EPV.Props.C18Tables'], ['EPV.Spec.XPathTypes', 'EPV.Gen.C18Tables', 'EPV.Lemmas.SeqTypeSpec', 'EPV.Lemmas.SeqTypeHist', 'EPV.Lemmas.SeqTypeText'])
     try:
         correspond(run)
     except DriverError as e:
